@@ -38,6 +38,8 @@ LEVEL_NOTE = "Trusted: Lean kernel + standard axioms; model; harness."
 TECHNIQUE = "Lean 4 proof (semi-graphoid rules valid in every distribution, closure sound / minimal / closed, symmetry quotient) + exhaustive differential check on small universes"
 
 VARS = ["A", "B", "C", "D"]
+# variable names of joint tables: also names that contain each other (a name is data, never a pattern)
+NAME_SETS = [["A", "B", "C", "D"], ["A", "B", "C", "D"], ["x1", "x10", "x2", "x1b"], ["A", "AB", "ABC", "B"], ["rain", "rain_tomorrow", "r", "ain"]]
 
 
 def all_assertions(n=4):
@@ -217,12 +219,21 @@ def run_iequiv(case, drv):
     n = case["n"]
     names = VARS[:n]
 
-    def mk(edges):
-        d = DAG()
-        d.add_nodes_from(names)
-        d.add_edges_from([(names[u], names[v]) for u, v in edges])
+    import random
+
+    def mk(edges, salt):
+        # the order in which edges (and nodes) are inserted is not part of a graph: each graph gets its own, and half of the graphs are
+        # BayesianNetwork objects
+        from pgmpy.models import BayesianNetwork
+        prng = random.Random(len(edges) * 31 + salt + n)
+        d = BayesianNetwork() if prng.random() < .5 else DAG()
+        nl, el = list(names), [(names[u], names[v]) for u, v in edges]
+        prng.shuffle(nl)
+        prng.shuffle(el)
+        d.add_nodes_from(nl)
+        d.add_edges_from(el)
         return d
-    g, h = mk(case["g"]), mk(case["h"])
+    g, h = mk(case["g"], 1), mk(case["h"], 2)
     m = drv.call("iequiv", g={"nodes": list(range(n)), "edges": case["g"]}, h={"nodes": list(range(n)), "edges": case["h"]})
     # Verma-Pearl inside the model: same skeleton + v-structures <=> same d-separation statements
     same_dsep = dsep_signature(drv, n, case["g"]) == dsep_signature(drv, n, case["h"])
@@ -320,7 +331,9 @@ def gen_ci(rng, tier):
     x, y = rng.sample(range(n), 2)
     rest = [v for v in range(n) if v not in (x, y)]
     z = rng.sample(rest, rng.randint(0, len(rest)))
-    return {"n": n, "card": card, "vals": [rs(v) for v in vals], "x": x, "y": y, "z": z, "style": style,
+    names = list(rng.choice(NAME_SETS))
+    rng.shuffle(names)
+    return {"n": n, "card": card, "vals": [rs(v) for v in vals], "x": x, "y": y, "z": z, "style": style, "names": names[:n],
             "by_value": rng.random() < .25 and bool(z), "zstate": [rng.randrange(card[v]) for v in z]}
 
 
@@ -336,7 +349,7 @@ def marg(vals, card, keep):
 def run_ci(case, drv):
     from pgmpy.factors.discrete import JointProbabilityDistribution as JPD
     n, card = case["n"], case["card"]
-    names = VARS[:n]
+    names = case.get("names") or VARS[:n]
     vals = [Fraction(v) for v in case["vals"]]
     x, y, z = case["x"], case["y"], case["z"]
     p = {"scope": list(range(n)), "card": card, "vals": case["vals"]}
@@ -391,7 +404,9 @@ def gen_imap(rng, tier):
     vals = rand_joint(rng, n, card, style)
     order = list(range(n))
     rng.shuffle(order)
-    return {"n": n, "card": card, "vals": [rs(v) for v in vals], "order": order, "style": style}
+    names = list(rng.choice(NAME_SETS))
+    rng.shuffle(names)
+    return {"n": n, "card": card, "vals": [rs(v) for v in vals], "order": order, "style": style, "names": names[:n]}
 
 
 def imap_as_implemented(drv, p, order):
@@ -411,7 +426,7 @@ def imap_as_implemented(drv, p, order):
 def run_imap(case, drv):
     from pgmpy.factors.discrete import JointProbabilityDistribution as JPD
     n, card = case["n"], case["card"]
-    names = VARS[:n]
+    names = case.get("names") or VARS[:n]
     vals = [Fraction(v) for v in case["vals"]]
     p = {"scope": list(range(n)), "card": card, "vals": case["vals"]}
     jpd = JPD(names, card, [float(v) for v in vals])
